@@ -235,7 +235,7 @@ run_mesh(void *arg)
 // =============================================================================
 // Scenario 2: one BUS socket (raw or cooked) and three raw wire peers
 // =============================================================================
-enum { R_WRITE0 = 0, R_FWD = 3, R_FRESH = 4, R_N = 5 };
+enum { R_WRITE0 = 0, R_FWD = 3, R_FRESH = 4, R_BURST = 5, R_N = 6 };
 
 typedef struct wmsg {
 	int     peer;
@@ -340,6 +340,7 @@ run_raw(void *arg)
 		snprintf(seq + strlen(seq), sizeof(seq) - strlen(seq), "%s%s",
 		    step ? " " : "",
 		    lt == R_FWD         ? "recv+forward"
+		        : lt == R_BURST ? "recv+fresh+forward(burst)"
 		        : lt == R_FRESH ? "send-fresh"
 		        : lt == 0       ? "p0.write"
 		        : lt == 1       ? "p1.write"
@@ -356,7 +357,7 @@ run_raw(void *arg)
 				vs_fail("harness:peer", "[%s] raw write failed", seq);
 			vs_settle();
 			raw_expect(0, NULL, 0, -1, 0);
-		} else if (lt == R_FWD) {
+		} else if (lt == R_FWD || lt == R_BURST) {
 			nng_msg *m   = NULL;
 			int      rv  = nng_recvmsg(B, &m, NNG_FLAG_NONBLOCK);
 			int      und = 0;
@@ -424,6 +425,51 @@ run_raw(void *arg)
 			}
 			uint8_t body[4];
 			memcpy(body, b, 4);
+			if (lt == R_BURST) {
+				// a fresh message first and NO settle: every pipe is
+				// still busy with it when the forward is submitted, so
+				// the forward goes through the per-pipe send queues
+				nng_msg *f;
+				uint8_t  fb[4] = { 'F', (uint8_t) step, 0x22, 0xdd };
+				VH_OK(nng_msg_alloc(&f, 0));
+				VH_OK(nng_msg_append(f, fb, 4));
+				if (nng_sendmsg(B, f, 0) != 0)
+					vs_fail("C09:send-result", "[%s] burst send failed",
+					    seq);
+				raw_send(m); // settles
+				for (int k = 0; k < 3; k++) {
+					const uint8_t *p;
+					size_t         len;
+					int wantfwd = cooked || k != w->peer, n = 0, r;
+					while ((r = vp_next_frame(rfd[k], rrd[k], &p, &len)) ==
+					    1) {
+						const uint8_t *want = n == 0 ? fb : body;
+						if (n == 1 && !wantfwd)
+							vs_fail("C09:raw:forward-to-origin",
+							    "[%s] the forwarded message came "
+							    "back to its origin, raw peer %d "
+							    "(its pipe was busy)",
+							    seq, k);
+						if (n > 1 || len != 4 || memcmp(p, want, 4) != 0)
+							vs_fail(n > 1 ? "C09:duplicate"
+							              : "C09:corrupt",
+							    "[%s] raw peer %d: frame #%d is %s", seq,
+							    k, n, vh_hex(p, len));
+						n++;
+					}
+					if (r < 0)
+						vs_fail("harness:peer", "[%s] raw peer %d EOF",
+						    seq, k);
+					if (n < 1 + wantfwd)
+						vs_fail(n == 0 ? "C09:lost"
+						               : "C09:raw:missing-forward",
+						    "[%s] raw peer %d got %d of %d frames of "
+						    "the burst (queue depth 16)",
+						    seq, k, n, 1 + wantfwd);
+				}
+				r_fwd++;
+				continue;
+			}
 			raw_send(m);
 			raw_expect(cooked ? 7 : (7 & ~(1 << w->peer)), body, 4,
 			    cooked ? -1 : w->peer, !cooked);
@@ -445,6 +491,84 @@ run_raw(void *arg)
 		free(rrd[k]);
 	}
 	nng_socket_close(B);
+	vh_fini();
+}
+
+// ---- buffer resizes with traffic queued (power-of-two depths included) -----------
+static void
+run_resize(void *arg)
+{
+	(void) arg;
+	vh_init(1);
+	nng_socket a, b;
+	VH_OK(nng_bus0_open(&a));
+	VH_OK(nng_bus0_open(&b));
+	VH_OK(nng_socket_set_int(b, NNG_OPT_RECVBUF, 4));
+	VH_OK(nng_socket_set_int(a, NNG_OPT_SENDBUF, 4));
+	VH_OK(nng_listen(a, "inproc://c09rs", NULL, 0));
+	VH_OK(nng_dial(b, "inproc://c09rs", NULL, 0));
+	vs_settle();
+	int  next = 0, last = -1, got = 0;
+	char h[200] = "";
+	int  pre    = 3 + vs_choose(VK_ENV, 4); // 3..6 messages queued at B
+	for (int i = 0; i < pre; i++) {
+		uint8_t body[4] = { 'R', (uint8_t) next++, 0x5a, 0xa5 };
+		if (vh_send_nb(a, body, 4) != 0)
+			vs_fail("C09:send-result", "prefix send failed");
+		vs_settle();
+	}
+	snprintf(h, sizeof(h), "pre%d", pre);
+	static const int RS[] = { 2, 4, 8, 3 };
+	for (int step = 0; step <= g_depth + 12; step++) {
+		int l = step < g_depth ? vs_choose(VK_ENV, 10)
+		                       : 1; // epilogue: drain B
+		if (l == 0) {
+			uint8_t body[4] = { 'R', (uint8_t) next++, 0x5a, 0xa5 };
+			int     rv      = vh_send_nb(a, body, 4);
+			if (rv != 0)
+				vs_fail("C09:send-result", "[%s] send -> %d", h, rv);
+			vs_settle();
+			strcat(h, " send");
+		} else if (l == 1) {
+			uint8_t buf[8];
+			size_t  n;
+			int     rv = vh_recv_nb(b, buf, sizeof(buf), &n);
+			if (step < g_depth)
+				strcat(h, " recv");
+			if (rv == NNG_EAGAIN) {
+				if (step >= g_depth)
+					break;
+				continue;
+			}
+			if (rv != 0)
+				vs_fail("C09:recv-result", "[%s] recv -> %d", h, rv);
+			if (n != 4 || buf[0] != 'R' || buf[2] != 0x5a || buf[3] != 0xa5 ||
+			    buf[1] >= next)
+				vs_fail("C09:corrupt", "[%s] received %s", h,
+				    vh_hex(buf, n > 8 ? 8 : n));
+			if ((int) buf[1] == last)
+				vs_fail("C09:duplicate", "[%s] message #%d received twice",
+				    h, last);
+			if ((int) buf[1] < last)
+				vs_fail("C09:order", "[%s] message #%d after #%d", h, buf[1],
+				    last);
+			last = buf[1];
+			got++;
+		} else {
+			int which = (l - 2) / 4, n = RS[(l - 2) % 4];
+			int rv    = which ? nng_socket_set_int(a, NNG_OPT_SENDBUF, n)
+			                  : nng_socket_set_int(b, NNG_OPT_RECVBUF, n);
+			if (rv != 0)
+				vs_fail("C09:recv-result", "[%s] resize -> %d", h, rv);
+			snprintf(h + strlen(h), sizeof(h) - strlen(h), " %s=%d",
+			    which ? "sbufA" : "rbufB", n);
+			vs_settle();
+		}
+	}
+	vs_log("%s", h);
+	vs_outcome("got=%d of %d", got > 6 ? 6 : got, next > 8 ? 8 : next);
+	nng_socket_close(a);
+	nng_socket_close(b);
 	vh_fini();
 }
 
@@ -507,6 +631,12 @@ main(int argc, char **argv)
 		snprintf(name, sizeof(name), "cooked-3peers-d%d", d);
 		if (vx_time_left() > 10)
 			explore(name, run_raw, (void *) 1, d);
+	}
+	{
+		int d = T ? 4 : 3;
+		snprintf(name, sizeof(name), "resize-d%d", d);
+		if (vx_time_left() > 10)
+			explore(name, run_resize, NULL, d);
 	}
 	// deeper runs only when the machine is fast enough today
 	if (T && affordable(279936)) {
